@@ -245,14 +245,14 @@ class TreeFn(Generic[_FnT, _T]):
     # Only ignore function call error.
     map_ = iter_utils.map_ignore_error if ignore_error else map
     fn_outputs = map_(self._maybe_call_fn, fn_inputs)
-    fn_outputs = map(self._normalize_outputs, fn_outputs)
     if self.batch_size:
+      # Rebatches the output columns as the function returned them, i.e., before
+      # several outputs are possibly packed into a single output key.
       fn_outputs = iter_utils.rebatched_args(
-          fn_outputs,
+          (o if isinstance(o, tuple) else (o,) for o in fn_outputs),
           batch_size=self.batch_size,
-          num_columns=self._num_outputs,
       )
-    return fn_outputs
+    return map(self._normalize_outputs, fn_outputs)
 
   def iterate(
       self, input_iterator: Iterable[tree.TreeLike]
